@@ -28,6 +28,7 @@ import (
 
 	restful "github.com/emicklei/go-restful/v3"
 
+	"verifharness/internal/registry"
 	"verifharness/internal/rng"
 )
 
@@ -578,6 +579,25 @@ func stressC12(d time.Duration, seed uint64) result {
 			case <-done:
 			case <-time.After(10 * time.Second):
 				return result{OK: false, What: "deadlock: goroutines still blocked 10 s after the load was stopped", Detail: "router=" + router}
+			}
+			// drawn tables (registry.Churn): root paths that share their fixed prefix or nest, sub paths that
+			// repeat the names of the level above, one WebService or one route at a time going away and
+			// coming back while everything else is asked for through both entry points; every answer is
+			// compared with fresh containers built from the declarations of the states that existed
+			if bad.Load() == nil {
+				churnDone := make(chan [2]string, 1)
+				go func() {
+					w, dt := registry.Churn(rng.New(seed*977).Fork(uint64(round*8+ri)), router, time.Now().Add(120*time.Millisecond), count)
+					churnDone <- [2]string{w, dt}
+				}()
+				select {
+				case x := <-churnDone:
+					if x[0] != "" {
+						fail(x[0], x[1])
+					}
+				case <-time.After(15 * time.Second):
+					return result{OK: false, What: "deadlock: a registration change or a request on a drawn table did not come back within 15 s", Detail: "router=" + router}
+				}
 			}
 		}
 	}
